@@ -21,6 +21,43 @@ claim("C07", "proof",
       "/verif/oracle/units.txt. Units unknown to the oracle are reported as unverified, not as violations.",
       "constant-table extraction from THIR + exact-rational oracle comparison (static)", "DESIGN.md §4 C07")
 
+VF_NOTE = ("Trusted: rustc type checking, THIR construction and trait resolution; IEEE-754 / fpdec arithmetic (each arithmetic node is one "
+           "correctly rounded operation of the amount type); derived PartialEq of field-less enums. The SIZE of the rounding error is not decided. "
+           "Fail-closed: a body rewritten into an idiom outside the supported THIR subset is reported as unsupported-construct.")
+
+claim("C01", "other",
+      "Decides the real-number function and the exactness clauses for all types, unit pairs and amounts at once: gated value-flow summaries of "
+      "LinearScaledUnit::ratio, HasRefUnit::equiv_amount and ::convert (generic bodies) are compared with the specification over the truth table of "
+      "their guards — same-unit branch is the untouched amount (no arithmetic node), converted branch is amount*s_from/s_to as a rational function, "
+      "convert stores exactly equiv_amount's result and the requested unit; record axioms amount(new(a,u))=a, unit(new(a,u))=u for every generated "
+      "type in both back-ends; no impl overrides the analysed defaults; scale tables total and positive.",
+      VF_NOTE, "gated value-flow summaries over THIR + exact-tree / rational-function normal forms (static)", "DESIGN.md §4 C01")
+claim("C02", "other",
+      "Summaries of HasRefUnit::eq / partial_cmp for (a,b) and (b,a) over the finite case split {same unit; s_a<s_b; s_a=s_b, units differ; s_a>s_b}: "
+      "both operand orders must compare the same two rounded operand trees (order independence, exact), each side being the magnitude in one common "
+      "unit (rational function), at most one converted side, bare amount comparison under equal units, eq and partial_cmp on the same pair; every "
+      "generated PartialEq/PartialOrd impl forwards to these bodies and provides nothing else. Found and fixed a genuine defect (see known_findings.json).",
+      VF_NOTE + " NaN excluded by the property.", "gated value-flow summaries + finite order domain for the guards (static)", "DESIGN.md §4 C02, §7.1")
+claim("C03", "other",
+      "Value-flow forms of HasRefUnit::add/sub/div with the conversion inlined: result unit slot is exactly the left operand's unit, amount is "
+      "a ± b*s_b/s_a resp. (a*s_a)/(b*s_b) as rational function, the bare operation under equal units; every generated Add/Sub/Div<Self> of every "
+      "reference-unit type forwards its operands in order to these bodies and has the specified Output type.",
+      VF_NOTE, "gated value-flow summaries + who-calls on resolved callees (static)", "DESIGN.md §4 C03")
+claim("C08", "other",
+      "Record axioms of every generated new/amount/unit by composition; the five scalar/unit operator bodies of every quantity type are exact "
+      "pass-through / single-operation trees (so zero, -0, infinities and NaN need no separate argument); the dimensionless amount, One, AMNT_ONE.",
+      VF_NOTE, "value-flow forms as exact trees, per generated impl (static)", "DESIGN.md §4 C08")
+claim("C10", "other",
+      "Quantity::{eq,partial_cmp,add,sub,div} as gated terms: equality is exactly same-unit AND same-amount (Boolean truth table), ordering None across "
+      "units, arithmetic across units ends in a diverging panic and never returns; types without reference unit forward to these bodies and implement "
+      "neither HasRefUnit nor LinearScaledUnit; single-unit types do plain amount arithmetic.",
+      VF_NOTE, "gated value-flow summaries incl. diverging branch + who-calls (static)", "DESIGN.md §4 C10")
+claim("C16", "proof",
+      "The four 25-row tables, the discriminants and both lookup functions are extracted as constant tables; from_abbr / from_exp are match tables over "
+      "literals and therefore decided for ALL strings and all 256 i8 values; compared with the SI brochure table; iteration order from VARIANTS.",
+      "Trusted: rustc match semantics, oracle/si_prefixes.json, core::slice::Iter order.", "constant/match-table extraction + oracle comparison (static, exhaustive)",
+      "DESIGN.md §4 C16")
+
 NOT_YET = "check not built yet (see DESIGN.md for the planned static analysis)"
 
 m = {
